@@ -1,6 +1,8 @@
 // more families: backtrace (C18), threads (C20), faults (C10), drop (C08), progress (C09), levels (C16),
 // lifecycle (C17), lines (C12)
 #pragma once
+#include "quill/sinks/JsonSink.h"
+#include <fstream>
 #include "e2e/fam_flush.h"
 #include "quill/DeferredFormatCodec.h"
 
@@ -450,6 +452,8 @@ inline bool faults_S(Rng& r, uint64_t idx)
   World w;
   w.tag = "xS" + std::to_string(idx);
   w.random_backend_options(r);
+  // one scenario in three runs with the printable-character check switched off (the documented way: an empty function)
+  if (r.chance(1, 3)) w.bo.check_printable_char = {};
   w.make_sinks(3);
   w.make_logger({0, 1, 2});
   w.make_logger(r.chance(1, 2) ? std::vector<uint32_t>{2, 0} : std::vector<uint32_t>{1});
@@ -524,10 +528,63 @@ inline bool faults_S(Rng& r, uint64_t idx)
       run.run_on(s, [wp, sp, li, seq] { issue_std(sp->issues, wp->loggers[li].lg, li, quill::LogLevel::Info, sp->tid, seq, 6); }, "log");
     if (r.chance(1, 3)) run.poll();
   }
+  // ---- a JSON file sink whose write fails once (its before_write callback throws on the k-th statement): that
+  // statement is missing, every other one is there as one complete single-line object, in order
+  bool json_ok = true;
+  if (!run.failed && !a.w->parked() && r.chance(1, 2))
+  {
+    std::string const jpath = g_dir + "/" + w.tag + ".json";
+    auto calls = std::make_shared<std::atomic<int>>(0);
+    int const throw_at = static_cast<int>(r.below(8)); // 6 and 7: never
+    quill::FileEventNotifier fen;
+    fen.before_write = [calls, throw_at](std::string_view m)
+    {
+      if (calls->fetch_add(1) == throw_at) throw std::runtime_error{"scripted before_write failure"};
+      return std::string{m};
+    };
+    quill::FileSinkConfig fc;
+    fc.set_open_mode('w');
+    auto js = Fe::create_or_get_sink<quill::JsonFileSink>(jpath, fc, fen);
+    Lg* jl = Fe::create_or_get_logger(w.tag + "_json", js, quill::PatternFormatterOptions{"%(message)"}, quill::ClockSourceType::System);
+    SW* jp = &a;
+    uint32_t const first = a.seq;
+    for (int i = 0; i < 6; ++i)
+    {
+      uint32_t const seq = a.seq++;
+      run.run_on(a, [jl, jp, seq] { int res; uint32_t const len = 4; std::string const pl = payload(jp->tid, seq, len); std::string_view const sv{pl}; VF_LOG_RES(res, jl, quill::LogLevel::Info, "{tid}|{seq}|{len}|{pl}", jp->tid, seq, len, sv); (void)res; }, "log-json");
+      if (a.w->parked()) run.wait_for(a, "faults_S");
+      if (r.chance(1, 2)) run.poll();
+    }
+    if (!a.w->parked()) run.run_on(a, [jl] { tl_control_op = true; jl->flush_log(0); tl_control_op = false; }, "flush_log");
+    if (run.wait_for(a, "faults_S") && run.drain("faults_S"))
+    {
+      std::ifstream in{jpath};
+      std::vector<std::string> lines;
+      for (std::string ln; std::getline(in, ln);) lines.push_back(ln);
+      std::vector<uint32_t> want;
+      for (int i = 0; i < 6; ++i) if (i != throw_at) want.push_back(first + static_cast<uint32_t>(i));
+      bool good = lines.size() == want.size();
+      for (size_t i = 0; good && i < lines.size(); ++i)
+      {
+        std::string const& ln = lines[i];
+        std::string const id = "\"tid\":\"" + std::to_string(a.tid) + "\",\"seq\":\"" + std::to_string(want[i]) + "\"";
+        size_t const ts1 = ln.find("\"timestamp\"");
+        good = ln.rfind("{\"timestamp\"", 0) == 0 && ln.back() == '}' && ln.find(id) != std::string::npos && ln.find("\"timestamp\"", ts1 + 1) == std::string::npos;
+      }
+      if (!good)
+      {
+        violation("C10", "json-sink-output-disturbed-after-a-failed-write", J{}.unum("lines", lines.size()).unum("expected_lines", want.size()).num("write_that_threw", throw_at).str("first_line", lines.empty() ? "" : lines[0].substr(0, 200)).str("last_line", lines.empty() ? "" : lines.back().substr(0, 300)).str("scenario", "faults_S").raw("cfg", w.describe()));
+        json_ok = false;
+      }
+      stat_add("faults_json_sink_scenarios");
+    }
+    Fe::remove_logger(jl);
+    js.reset();
+  }
   // flush_log() after the history must return (idle-cycle verdict in drain) and a final probe must be processed
   SW* ap = &a;
   if (!a.w->parked()) run.run_on(a, [wp] { tl_control_op = true; wp->loggers[0].lg->flush_log(0); tl_control_op = false; }, "flush_log");
-  bool ok = !run.failed && run.drain("faults_S");
+  bool ok = json_ok && !run.failed && run.drain("faults_S");
   if (ok && sink_fault_flush)
   {
     // flush_log() has returned: a sink whose flush throws (once, or from some call on for good) must not keep the
